@@ -516,6 +516,100 @@ class _RangeStep(ast.NodeTransformer):
     visit_ListComp = visit_GeneratorExp = visit_SetComp = visit_DictComp = _comp
 
 
+NONZERO_ATTR = None  # set by the model: attribute name -> True when every value the attribute can hold is a non-zero integer
+
+
+class _EnumRangeSym(ast.NodeTransformer):
+    """`for i, s in enumerate(range(0, N * S, S))`  ->  `for i in range(N)` with `s := i * S`, for a symbolic step S that is known to be
+    non-zero (its finite value set, see sa.valueset, excludes 0): the range then has exactly N elements (none when N <= 0) and the k-th
+    is k * S.  S is a name bound once in the function to `self.<attr>`, or `self.<attr>` itself, and is not rebound in the loop."""
+
+    def __init__(self, fn: ast.AST) -> None:
+        self.fn = fn
+        self.binds: dict = {}
+        for n in ast.walk(fn):
+            if isinstance(n, ast.Name) and isinstance(n.ctx, (ast.Store, ast.Del)):
+                self.binds[n.id] = self.binds.get(n.id, 0) + 1
+        self.local_attr: dict = {}
+        for n in ast.walk(fn):
+            if isinstance(n, ast.Assign) and len(n.targets) == 1 and isinstance(n.targets[0], ast.Name) and self.binds.get(n.targets[0].id) == 1 \
+                    and isinstance(n.value, ast.Attribute) and isinstance(n.value.value, ast.Name) and n.value.value.id == "self":
+                self.local_attr[n.targets[0].id] = n.value.attr
+
+    def _nonzero(self, e: ast.AST) -> bool:
+        if NONZERO_ATTR is None:
+            return False
+        if isinstance(e, ast.Name) and e.id in self.local_attr:
+            return bool(NONZERO_ATTR(self.local_attr[e.id]))
+        if isinstance(e, ast.Attribute) and isinstance(e.value, ast.Name) and e.value.id == "self":
+            return bool(NONZERO_ATTR(e.attr))
+        return False
+
+    def _match(self, target: ast.AST, it: ast.AST):
+        if not (isinstance(target, ast.Tuple) and len(target.elts) == 2 and all(isinstance(x, ast.Name) for x in target.elts)):
+            return None
+        if not (isinstance(it, ast.Call) and isinstance(it.func, ast.Name) and it.func.id == "enumerate" and len(it.args) == 1 and not it.keywords):
+            return None
+        r = it.args[0]
+        if not (isinstance(r, ast.Call) and isinstance(r.func, ast.Name) and r.func.id == "range" and len(r.args) == 3 and not r.keywords):
+            return None
+        lo, hi, st = r.args
+        if not (isinstance(lo, ast.Constant) and lo.value == 0 and isinstance(hi, ast.BinOp) and isinstance(hi.op, ast.Mult)):
+            return None
+        sd = ast.dump(st)
+        n_expr = hi.left if ast.dump(hi.right) == sd else hi.right if ast.dump(hi.left) == sd else None
+        if n_expr is None or not self._nonzero(st):
+            return None
+        return target.elts[0].id, target.elts[1].id, n_expr, st
+
+    @staticmethod
+    def _subst(nodes: list, name: str, val: ast.AST) -> list:
+        class R(ast.NodeTransformer):
+            def visit_Name(self, m):
+                if m.id == name and isinstance(m.ctx, ast.Load):
+                    return copy.deepcopy(val)
+                return m
+        return [R().visit(x) for x in nodes]
+
+    def _comp(self, n):
+        self.generic_visit(n)
+        if len(n.generators) != 1:
+            return n
+        g = n.generators[0]
+        mt = self._match(g.target, g.iter)
+        if mt is None:
+            return n
+        i, s_, n_expr, st = mt
+        val = ast.BinOp(left=ast.Name(id=i, ctx=ast.Load()), op=ast.Mult(), right=copy.deepcopy(st))
+        if hasattr(n, "elt"):
+            n.elt = self._subst([n.elt], s_, val)[0]
+        else:
+            n.key, n.value = self._subst([n.key], s_, val)[0], self._subst([n.value], s_, val)[0]
+        g.ifs = self._subst(g.ifs, s_, val)
+        g.target = ast.Name(id=i, ctx=ast.Store())
+        g.iter = ast.Call(func=ast.Name(id="range", ctx=ast.Load()), args=[copy.deepcopy(n_expr)], keywords=[])
+        return n
+
+    visit_ListComp = visit_GeneratorExp = visit_SetComp = visit_DictComp = _comp
+
+    def visit_For(self, node: ast.For):
+        self.generic_visit(node)
+        mt = self._match(node.target, node.iter)
+        if mt is None or node.orelse:
+            return node
+        i, s_, n_expr, st = mt
+        stn = {x.id for x in ast.walk(st) if isinstance(x, ast.Name)}
+        for b in node.body:
+            for x in ast.walk(b):
+                if isinstance(x, ast.Name) and isinstance(x.ctx, (ast.Store, ast.Del)) and (x.id in (i, s_) or x.id in stn):
+                    return node
+        val = ast.BinOp(left=ast.Name(id=i, ctx=ast.Load()), op=ast.Mult(), right=copy.deepcopy(st))
+        node.body = self._subst(node.body, s_, val)
+        node.target = ast.Name(id=i, ctx=ast.Store())
+        node.iter = ast.Call(func=ast.Name(id="range", ctx=ast.Load()), args=[copy.deepcopy(n_expr)], keywords=[])
+        return node
+
+
 SIZED_ATTRS: dict = {}  # attribute name -> dump of N: set by the model (sized_attributes) before any function is normalised
 
 
@@ -1081,6 +1175,9 @@ class _IdentityComp(ast.NodeTransformer):
 
 
 def normalise_loops(fn: ast.FunctionDef) -> ast.FunctionDef:
+    if NONZERO_ATTR is not None and any(isinstance(n, ast.Name) and n.id == "enumerate" for n in ast.walk(fn)):
+        fn = _EnumRangeSym(fn).visit(copy.deepcopy(fn))
+        ast.fix_missing_locations(fn)
     fn = _inline_iterables(fn)
     fn = _inline_range_bounds(fn)
     fn = _ZipCount().visit(copy.deepcopy(fn))
